@@ -341,3 +341,12 @@ class CallableThing:
 
 CALLABLE_OBJ = CallableThing()
 PARTIAL = functools.partial(mod_func, 1)
+
+
+async def coro_rebinding(key):
+    """Rebinds its parameter to another type before it really suspends."""
+    import asyncio
+
+    key = str(key)
+    await asyncio.sleep(0)
+    return key
